@@ -53,6 +53,7 @@ type round struct {
 	clock atomic.Int64
 	mu    sync.Mutex
 	subs  []*subLog
+	nvar  atomic.Int32 // set rounds: counts subscriptions, every fourth goes through WithElements
 }
 
 func (rd *round) newSub() *subLog {
@@ -484,6 +485,11 @@ func stressSet(r *hx.Run, rng *hx.Rng) bool {
 		r.Count("stress:set:rounds-with-argument-mutator")
 	}
 	sub := func(rd *round, sl *subLog, flag bool) {
+		if n := int(rd.nvar.Add(1)); n%4 == 0 {
+			weSubscribe(rd, s, sl, (n/4)%3, (n/12)%3)
+
+			return
+		}
 		sl.unsub = s.OnUpdate(func(m ds.SetMutations[int]) { rd.body(sl, showMut(m)) }, flag)
 	}
 	// the reference subscription is registered before any goroutine starts and stays to the end (rd.subs[0])
@@ -554,6 +560,11 @@ func stressDerivedSet(r *hx.Run, rng *hx.Rng) bool {
 		})
 	}
 	sub := func(rd *round, sl *subLog, flag bool) {
+		if n := int(rd.nvar.Add(1)); n%4 == 0 {
+			weSubscribe(rd, d, sl, (n/4)%3, (n/12)%3)
+
+			return
+		}
 		sl.unsub = d.OnUpdate(func(m ds.SetMutations[int]) { rd.body(sl, showMut(m)) }, flag)
 	}
 	rd, ok := runRound(r, rng, "dset", writers, sub, func(rd *round) { sub(rd, rd.newSub(), true) })
@@ -796,7 +807,7 @@ func isLogLine(op string) bool {
 	f := strings.Fields(op)
 
 	return len(f) > 0 && (f[0] == "vsub" || f[0] == "ssub" || f[0] == "sref" || f[0] == "vhist" ||
-		f[0] == "osub" || f[0] == "wsub" || f[0] == "csub" || f[0] == "rread")
+		f[0] == "osub" || f[0] == "wsub" || f[0] == "csub" || f[0] == "rread" || f[0] == "esub")
 }
 
 // sideFile, in the stress child, receives every failure as it is found (one JSON object per line).
@@ -866,6 +877,14 @@ func judgeLogLine(r *hx.Run, line string) string {
 	switch f[0] {
 	case "osub", "wsub", "csub", "rread":
 		judgeVariantLine(r, c, f, line)
+
+		return "accept"
+	case "esub":
+		k := c.kind
+		if k == "" {
+			k = "set"
+		}
+		judgeWeLine(r, k, f, line)
 
 		return "accept"
 	}
@@ -1003,6 +1022,10 @@ func emitRound(r *hx.Run, kind, histLine string, rd *round, lineKind, final stri
 		r.Line(line, judgeLogLine(r, line))
 		all = append(all, line)
 		ns := noteTokens(strings.Fields(line)[3:])
+		if s.lineKind == "esub" {
+			r.Count("stress:" + kind + ":withelements-subscriptions")
+			r.CountN("stress:"+kind+":withelements-calls", len(strings.Fields(line))-5)
+		}
 		r.CountN("stress:"+kind+":notes", len(ns))
 		r.Count("stress:" + kind + ":subscriptions:" + strings.Fields(line)[1])
 		if !((kind == "set" || kind == "dset") && i == 0) && len(ns) >= 2 && (kind != "var" || !strings.HasSuffix(ns[0], ":0") && strings.HasPrefix(ns[0], "0:")) {
